@@ -177,6 +177,67 @@ def dispatch_job(h):
     return out
 
 
+def dispatch2_job(h):
+    """Two wrappers around ONE user function (spec/DiffRHSGen2.tla): interleaved requests and hooks; what one wrapper answers does not
+    depend on what the other was asked (in particular not on the time the other differentiated at)."""
+    import copy
+    import desolver as de
+    ops, attr = h["ops"], h["attr"]
+    evals = []
+
+    def rhs(t, y):
+        evals.append((float(t), np.array(y, copy=True)))
+        return np.array([-(1.0 + t * t) * y[0] * y[1], np.sin(t) - y[1] ** 3])
+
+    def true_jac(t, y):
+        return np.array([[-(1.0 + t * t) * y[1], -(1.0 + t * t) * y[0]], [0.0, -3.0 * y[1] ** 2]])
+    if attr:
+        rhs.jac = lambda t, y: MARK["attr"] * np.ones((2, 2))
+    names = ["%s:%s" % (o["w"], o["op"]) for o in ops]
+    out = {"kind": "dispatch", "ops": names, "attr": attr, "expect": h["expect"], "ran": False, "got": [], "njev": -1, "nfevOk": False,
+           "palette": h.get("palette", 0), "two": h.get("how", "fresh")}
+    try:
+        wa = de.DiffRHS(rhs)
+        if h.get("how") == "copy":
+            wb = copy.copy(wa)
+        elif h.get("how") == "system":
+            wb = de.OdeSystem(wa, np.array([0.7, -0.4]), t=(0.0, 1.0), dt=0.1).equ_rhs      # the copy a system makes of the wrapper it is given
+        else:
+            wb = de.DiffRHS(rhs)
+        ws = {"A": wa, "B": wb}
+        n_base = {k: int(w.nfev) for k, w in ws.items()}
+        n0_all = len(evals)
+        y = np.array([0.7, -0.4])
+        times = PALETTES[h.get("palette", 0)]
+        got = []
+        for o in ops:
+            w, op = ws[o["w"]], o["op"]
+            if op in times:
+                t = times[op]
+                n0 = len(evals)
+                J = np.asarray(w.jac(t, y))
+                mine = evals[n0:]
+                by = "fd"
+                for k, v in MARK.items():
+                    if J.shape == (2, 2) and np.all(J == v):
+                        by = k
+                rec = {"by": by, "timesOk": all(tt == t for tt, _ in mine), "stateOk": all(np.max(np.abs(yy - y)) <= 1.0 for _, yy in mine),
+                       "valueOk": True, "nevals": len(mine)}
+                if by == "fd":
+                    rec["valueOk"] = bool(J.shape == (2, 2) and np.max(np.abs(J - true_jac(t, y))) <= 1e-7 * max(1.0, float(np.max(np.abs(true_jac(t, y))))) and len(mine) > 0)
+                got.append(rec)
+            elif op == "hook":
+                w.hook_jacobian_call(lambda t, y: MARK["hook"] * np.ones((2, 2)))
+            elif op == "unhook":
+                w.unhook_jacobian_call()
+        nj = sum(int(w.njev) for w in ws.values())
+        nf = sum(int(w.nfev) - n_base[k] for k, w in ws.items())
+        out.update(ran=True, got=got, njev=nj, nfevOk=bool(nf == len(evals) - n0_all))
+    except Exception as e:      # noqa
+        out["error"] = "%s: %s" % (type(e).__name__, str(e)[:100])
+    return out
+
+
 def check(run, replay=None):
     thorough = run.tier == "thorough"
     run.rule = ("finite differences: map (6 sizes x linear/quadratic) x point set (5, incl. zeros, small and large components) x dtype x array shapes x "
@@ -203,7 +264,13 @@ def check(run, replay=None):
     gen_out = core.generate("JacMaps", name="JacMaps_q", workers=2)[0]
     qjobs = [(c, base, ad) for c in gen_out["qcases"] for (base, ad) in ((None, True), (4, False), (2, False), (3, False), (5, False), (5, True))]
     qjobs += [(c, base, True, True) for c in gen_out["qcases"] for base in (None, 2, 3, 5)]
-    obs = core.pool_map(fd_job, jobs) + core.pool_map(qfd_job, qjobs) + core.pool_map(dispatch_job, hist, chunksize=50)
+    # two wrappers around one function: the interleaved histories of DiffRHSGen2.tla (TLC checks non-interference on all of them)
+    hist2 = run.generate("DiffRHSGen2")["histories"]
+    hist2 = sorted(hist2, key=lambda h: str(h))
+    if not thorough:
+        hist2 = [h for k, h in enumerate(hist2) if (k + run.seed) % 4 == 0]
+    hist2 = [dict(h, palette=(k + run.seed) % len(PALETTES), how=("fresh", "copy", "system")[k % 3]) for k, h in enumerate(hist2)]
+    obs = core.pool_map(fd_job, jobs) + core.pool_map(qfd_job, qjobs) + core.pool_map(dispatch_job, hist, chunksize=50) + core.pool_map(dispatch2_job, hist2, chunksize=50)
     for k, o in enumerate(obs):
         o["id"] = k
         run.evaluations += 1
